@@ -38,6 +38,17 @@ def probes(ctx: Ctx):
     rng = ctx.rng
     th = gym_thresholds()
     out = []
+    # fixed probes: the terminal region of every environment is entered whatever the seed (vacuity guard must not depend on luck)
+    for sgn in (-1, 1):
+        out.append(("CartPole", [sgn * (th["CartPole"]["x"] + 0.05), sgn * 0.5, 0.0, 0.0], 0))
+        out.append(("CartPole", [0.0, 0.0, sgn * (th["CartPole"]["th"] + 0.02), sgn * 0.3], 1))
+        out.append(("Acrobot", [sgn * (math.pi - 0.1), sgn * 0.05, 0.0, 0.0], 1))
+        out.append(("Acrobot", [sgn * 2.6, sgn * 0.4, 0.1, -0.1], 0))
+    for name in ("MountainCar", "ContinuousMountainCar"):
+        for a in ((0, 2) if name == "MountainCar" else (-8, 0, 8)):
+            out.append((name, [th[name]["goal"] + 0.03, 0.03], a))
+            out.append((name, [th[name]["goal"] - 0.005, 0.05], a))
+            out.append((name, [th[name]["minp"] + 0.01, -0.06], a))
     n = ctx.pick(6, 30)
     for _ in range(n):
         s = rng.choice([-1, 1])
